@@ -126,7 +126,7 @@ def cached_compile(pid, path, flags, env):
         e2["TMPDIR"] = os.path.join(cdir, "tmp")
         os.makedirs(e2["TMPDIR"], exist_ok=True)
         tmp = o + ".part"
-        rc, out, err, _, to = slot_sh(["goto-cc", "-c"] + flags + [path, "-o", tmp], timeout=120, env=e2)
+        rc, out, err, _, to = slot_sh(["goto-cc", "-c"] + flags + [path, "-o", tmp], timeout=900, env=e2)
         if rc != 0:
             raise Infra("goto-cc failed on %s: %s" % (path, (err or out)[-1500:]))
         os.rename(tmp, o)
@@ -226,7 +226,7 @@ def strip_mem_preds(o, env):
         cmd = ["goto-instrument"]
         for p in MEM_PREDS:
             cmd += ["--remove-function-body", p]
-        rc, out, err, _, _ = slot_sh(cmd + [o, o2 + ".part"], timeout=120, env=env)
+        rc, out, err, _, _ = slot_sh(cmd + [o, o2 + ".part"], timeout=900, env=env)
         if rc != 0:
             raise Infra("remove-function-body failed: %s" % (err or out)[-800:])
         os.rename(o2 + ".part", o2)
@@ -243,7 +243,7 @@ def strip_bodies(o, names, env):
             return o2
         if len(names) == 1 and names[0].startswith("!"):
             # keep only the functions matching the regex, strip every other body of this unit
-            rc, out, err, _, _ = slot_sh(["goto-instrument", "--list-goto-functions", o], timeout=120, env=env)
+            rc, out, err, _, _ = slot_sh(["goto-instrument", "--list-goto-functions", o], timeout=900, env=env)
             allf = [m.group(1) for m in re.finditer(r"^(\S+) /\* \S+ \*/$", out, re.M)]
             keep = re.compile(names[0][1:])
             names = [f for f in allf if not keep.search(f) and not f.startswith("__CPROVER")]
@@ -252,7 +252,7 @@ def strip_bodies(o, names, env):
         cmd = ["goto-instrument"]
         for p in names:
             cmd += ["--remove-function-body", p]
-        rc, out, err, _, _ = slot_sh(cmd + [o, o2 + ".part"], timeout=120, env=env)
+        rc, out, err, _, _ = slot_sh(cmd + [o, o2 + ".part"], timeout=900, env=env)
         if rc != 0:
             raise Infra("remove-function-body failed: %s" % (err or out)[-800:])
         os.rename(o2 + ".part", o2)
@@ -289,7 +289,7 @@ def build_goto(g, wd, env, pid="X"):
             orig = [k for k, v in rw.items() if v == path][0]
             o = os.path.join(wd, "u%d.gb" % i)
             cmd = ["goto-cc", "-c", "-I", os.path.dirname(os.path.join(REPO, orig))] + flags + [path, "-o", o]
-            rc, out, err, _, to = slot_sh(cmd, timeout=120, env=env)
+            rc, out, err, _, to = slot_sh(cmd, timeout=900, env=env)
             if rc != 0:
                 raise Infra("goto-cc failed on %s: %s" % (path, (err or out)[-1500:]))
         else:
@@ -302,7 +302,7 @@ def build_goto(g, wd, env, pid="X"):
         objs.append(o)
     a = os.path.join(wd, "a.gb")
     cmd = ["goto-cc"] + (["-m32"] if g["arch"] == 32 else []) + ["--function", g["entry"]] + objs + ["-o", a]
-    rc, out, err, _, to = sh(cmd, timeout=120, env=env)
+    rc, out, err, _, to = sh(cmd, timeout=900, env=env)
     if rc != 0:
         raise Infra("goto-cc link failed: %s" % (err or out)[-1500:])
     cur = a
@@ -348,9 +348,9 @@ def make_loops_json(spec, binary, wd, env):
     Base names used in the clauses are resolved to CBMC symbol ids (f::x, f::1::x, ...)
     from the binary's symbol table, so the contract text mentions only parameters and
     loop counters by their source names."""
-    rc, out, err, _, _ = slot_sh(["goto-instrument", "--show-symbol-table", binary], timeout=120, env=env)
+    rc, out, err, _, _ = slot_sh(["goto-instrument", "--show-symbol-table", binary], timeout=900, env=env)
     syms = re.findall(r"^Symbol\.+: (\S+)$", out, re.M)
-    rc, lout, err, _, _ = slot_sh(["goto-instrument", "--show-loops", binary], timeout=120, env=env)
+    rc, lout, err, _, _ = slot_sh(["goto-instrument", "--show-loops", binary], timeout=900, env=env)
     nloops = {}
     for m in re.finditer(r"^Loop (\S+)\.(\d+):", lout, re.M):
         nloops[m.group(1)] = max(nloops.get(m.group(1), 0), int(m.group(2)) + 1)
@@ -642,7 +642,7 @@ def native_lib(pid, g, env):
             return o
         with cf.ThreadPoolExecutor(8) as ex:
             objs = list(ex.map(cc, files))
-        rc, out, err, _, _ = sh(["ar", "rcs", lib + ".part"] + objs, timeout=120, env=e2)
+        rc, out, err, _, _ = sh(["ar", "rcs", lib + ".part"] + objs, timeout=900, env=e2)
         if rc != 0:
             raise Infra("ar failed: " + err[-500:])
         os.rename(lib + ".part", lib)
@@ -839,7 +839,7 @@ def run_group(pid, g, tier, seed, keep=False):
             return R
         binary = build_goto(g, wd, env, pid)
         if g["spec_unwind"]:
-            rc, lout, err, _, _ = slot_sh(["goto-instrument", "--show-loops", binary], timeout=120, env=env)
+            rc, lout, err, _, _ = slot_sh(["goto-instrument", "--show-loops", binary], timeout=900, env=env)
             ids = [m.group(1) for m in re.finditer(r"^Loop (\S+):", lout, re.M)]
             g = dict(g)
             g["unwindset"] = list(g["unwindset"]) + ["%s:%d" % (i, g["spec_unwind"]) for i in ids
